@@ -198,12 +198,26 @@ func GenBatchManyFields(t *rapid.T, sc *Scenario) Batch {
 		}
 		b[0].Fields = append(b[0].Fields, f)
 	}
+	// a few "hot" fields around the one-byte / two-byte field id boundary that several documents share, so
+	// that posting lists with more than one document and locations naming fields on both sides of it exist
+	var hot []int
+	for _, h := range []int{0, 1, 62, 63, 126, 127, 128, 129, nNames - 2, nNames - 1} {
+		if h < nNames {
+			hot = append(hot, h)
+		}
+	}
+	pick := func(label string) int {
+		if rapid.Bool().Draw(t, label+"Hot") {
+			return rapid.SampledFrom(hot).Draw(t, label+"HotIdx")
+		}
+		return rapid.IntRange(0, nNames-1).Draw(t, label)
+	}
 	nDocs := rapid.IntRange(1, 5).Draw(t, "nDocs")
 	for d := 0; d < nDocs; d++ {
 		var doc Doc
 		nf := rapid.IntRange(1, 4).Draw(t, "nFields")
 		for k := 0; k < nf; k++ {
-			fi := rapid.IntRange(0, nNames-1).Draw(t, "fieldIdx")
+			fi := pick("fieldIdx")
 			f := Field{Name: names[fi], DV: sc.Schema["a"] == dvAlways && fi%2 == 0}
 			nt := rapid.IntRange(1, 3).Draw(t, "nTerms")
 			for x := 0; x < nt; x++ {
@@ -212,7 +226,7 @@ func GenBatchManyFields(t *rapid.T, sc *Scenario) Batch {
 				for l := 0; l < nl; l++ {
 					lf := ""
 					if rapid.Bool().Draw(t, "locOther") {
-						lf = names[rapid.IntRange(0, nNames-1).Draw(t, "locFieldIdx")]
+						lf = names[pick("locFieldIdx")]
 					}
 					tm.Locs = append(tm.Locs, Loc{Field: lf, Pos: rapid.SampledFrom(posVals).Draw(t, "pos"), Start: l, End: l + 1})
 				}
@@ -249,6 +263,40 @@ func incompressible(n int, seed uint64) string {
 		b[i] = byte(x >> 32)
 	}
 	return string(b)
+}
+
+// AlignBatch appends to the last document a stored incompressible value whose
+// length is searched so that the data section of the persisted segment (the
+// file without its 44-byte footer) is an exact multiple of align, and returns
+// whether the search converged. The search uses the builder itself; nothing
+// is assumed about its output except that longer values give longer files.
+func AlignBatch(b Batch, norm NormFn, mode uint32, align int, seed uint64) (Batch, int, bool) {
+	out := make(Batch, len(b))
+	copy(out, b)
+	if len(out) == 0 {
+		out = Batch{{}}
+	}
+	last := len(out) - 1
+	base := append([]Field{}, out[last].Fields...)
+	l := 1
+	for iter := 0; iter < 16; iter++ {
+		out[last].Fields = append(append([]Field{}, base...), Field{Name: "zz", Store: true, Value: incompressible(l, seed)})
+		seg, err := Build(out, norm, mode)
+		if err != nil {
+			return out, 0, false
+		}
+		bs, err := PersistCh(seg, nil)
+		if err != nil {
+			return out, 0, false
+		}
+		data := len(bs) - 44
+		if r := data % align; r == 0 {
+			return out, data, true
+		} else {
+			l += align - r
+		}
+	}
+	return out, 0, false
 }
 
 // GenBatchBig draws a handful of documents whose stored values are large and
@@ -369,6 +417,7 @@ type WideParams struct {
 	EmptyTermPer int    // >0: docs with i%EmptyTermPer==1 also list the empty term (freq 2) in field "a"
 	DenseName    string // name of the dense term ("dense" or "dense2": merge inputs whose dense terms differ)
 	GapField     int    // >0: doc-value field "b" occurs only in document 3 and in documents >= GapField: whole 1024-document doc-value chunks without any value
+	ALo, AHi     int    // AHi>0: field "a" occurs only in documents ALo <= i < AHi: a doc-value field (the first in field order) that ends, or starts, in the middle of the segment while others go on
 	DenseExact   int    // >0: the dense term occurs in exactly the first DenseExact documents that have field "a" (an exact multiple of 1024: the boundary of the adaptive chunk-count formula)
 }
 
@@ -390,6 +439,13 @@ func GenWide(t *rapid.T) WideParams {
 		p.GapField = rapid.SampledFrom([]int{1024, 1030, 2048, 2050, p.N - 2}).Draw(t, "gapStart")
 		if p.GapField >= p.N {
 			p.GapField = p.N - 2
+		}
+	}
+	if p.N > 1030 && rapid.IntRange(0, 2).Draw(t, "aWindow") == 0 {
+		p.ALo = rapid.SampledFrom([]int{0, 0, 200, 1024, 1030}).Draw(t, "aLo")
+		p.AHi = rapid.SampledFrom([]int{250, 1024, 1100, 2048, p.N - 3}).Draw(t, "aHi")
+		if p.AHi <= p.ALo {
+			p.AHi = p.ALo + 50
 		}
 	}
 	if p.N >= 1024 && rapid.IntRange(0, 3).Draw(t, "denseExact") == 0 {
@@ -415,6 +471,9 @@ func (p WideParams) Batch(sc *Scenario) Batch {
 				b[i].Fields = append(b[i].Fields, Field{Name: "zz", DV: sc.Schema["zz"] != dvNever,
 					Terms: []Term{{T: fmt.Sprintf("z%d", i%5), Freq: 1}}, Len: 1})
 			}
+			continue
+		}
+		if p.AHi > 0 && (i < p.ALo || i >= p.AHi) {
 			continue
 		}
 		fa := Field{Name: "a", DV: dvA}
@@ -451,6 +510,195 @@ func (p WideParams) Batch(sc *Scenario) Batch {
 		}
 		if i%500 == 7 {
 			b[i].Fields = append(b[i].Fields, Field{Name: "title", Store: true, Value: fmt.Sprintf("doc-%d", i)})
+		}
+	}
+	return b
+}
+
+// CountsParams describes a batch built to reach the width boundaries of the
+// per-field statistics: the number of documents carrying field "a" around
+// 127/128 and 16383/16384 (1-, 2-, 3-byte varints) and a total term frequency
+// around 2^(7k) (up to 9-byte varints) through one or two very frequent terms.
+type CountsParams struct {
+	N          int
+	FieldEvery int     // field "a" in documents with i%FieldEvery==0
+	HugeAt     []int   // documents whose field "a" also lists term "big"
+	HugeFreq   []int64 // with these frequencies
+	OtherField bool    // the remaining documents carry field "b"
+}
+
+var hugeFreqs = []int64{1 << 7, 1<<14 - 1, 1 << 21, 1 << 28, 1<<35 - 1, 1 << 42, 1 << 49, 1<<56 - 1, 1 << 56, 1<<56 + 3, 1 << 60, 1<<61 - 1}
+
+func GenCounts(t *rapid.T) CountsParams {
+	p := CountsParams{N: rapid.SampledFrom([]int{1, 5, 126, 127, 128, 129, 130, 255, 256, 300, 16383, 16384, 16385, 16500}).Draw(t, "countsN")}
+	p.FieldEvery = rapid.SampledFrom([]int{1, 1, 2}).Draw(t, "fieldEvery")
+	nh := rapid.IntRange(0, 2).Draw(t, "nHuge")
+	for i := 0; i < nh; i++ {
+		p.HugeAt = append(p.HugeAt, rapid.IntRange(0, p.N-1).Draw(t, "hugeAt")/p.FieldEvery*p.FieldEvery)
+		p.HugeFreq = append(p.HugeFreq, rapid.SampledFrom(hugeFreqs).Draw(t, "hugeFreq"))
+	}
+	p.OtherField = rapid.Bool().Draw(t, "otherField")
+	return p
+}
+
+func (p CountsParams) String() string { return fmt.Sprintf("counts%+v", countsPlain(p)) }
+
+type countsPlain CountsParams
+
+func (p CountsParams) Batch(sc *Scenario) Batch {
+	b := make(Batch, p.N)
+	for i := range b {
+		if i%p.FieldEvery != 0 {
+			if p.OtherField {
+				b[i].Fields = append(b[i].Fields, Field{Name: "b", Len: 1, Terms: []Term{{T: "o", Freq: 1}}})
+			}
+			continue
+		}
+		f := Field{Name: "a", Len: 1, DV: sc.Schema["a"] == dvAlways, Terms: []Term{{T: fmt.Sprintf("t%d", i%3), Freq: 1}}}
+		for k, at := range p.HugeAt {
+			if at == i {
+				f.Terms = append(f.Terms, Term{T: "big", Freq: int(p.HugeFreq[k])})
+				f.Len += int(p.HugeFreq[k])
+			}
+		}
+		b[i].Fields = append(b[i].Fields, f)
+	}
+	return b
+}
+
+// DVGapsParams describes 1025..3100 documents with 2..4 doc-value fields, each
+// present only in a few drawn document ranges: fields that end early, start
+// late, skip whole 1024-document doc-value chunks or miss the last one, in
+// every combination across the fields of one segment.
+type DVGapField struct {
+	Name   string
+	Ranges [][2]int // [lo,hi)
+	Step   int
+}
+
+type DVGapsParams struct {
+	N      int
+	Fields []DVGapField
+}
+
+func GenDVGaps(t *rapid.T) DVGapsParams {
+	p := DVGapsParams{N: rapid.SampledFrom([]int{1025, 1100, 2048, 2049, 2500, 3072, 3073, 3100}).Draw(t, "dvN")}
+	names := []string{"a", "b", "title", "zz"}
+	nf := rapid.IntRange(2, 4).Draw(t, "dvFields")
+	first := rapid.IntRange(0, len(names)-nf).Draw(t, "dvFirstName")
+	bounds := []int{0, 3, 200, 250, 1023, 1024, 1025, 1100, 2047, 2048, 2049, 2100, 3071, 3072, p.N - 1, p.N}
+	for k := 0; k < nf; k++ {
+		f := DVGapField{Name: names[first+k], Step: rapid.SampledFrom([]int{1, 1, 2, 7}).Draw(t, "dvStep")}
+		nr := rapid.IntRange(1, 3).Draw(t, "dvRanges")
+		for r := 0; r < nr; r++ {
+			lo := rapid.SampledFrom(bounds).Draw(t, "dvLo")
+			ln := rapid.SampledFrom([]int{1, 1, 2, 50, 1024, 1100, 4000}).Draw(t, "dvLen")
+			if lo >= p.N {
+				lo = p.N - 1
+			}
+			hi := lo + ln
+			if hi > p.N {
+				hi = p.N
+			}
+			f.Ranges = append(f.Ranges, [2]int{lo, hi})
+		}
+		if k == nf-1 && rapid.Bool().Draw(t, "dvLastDense") {
+			// the last field in field order present throughout: chunks of it are flushed while earlier inputs of a merge are still being read
+			f.Ranges = [][2]int{{0, p.N}}
+		}
+		p.Fields = append(p.Fields, f)
+	}
+	return p
+}
+
+func (p DVGapsParams) String() string { return fmt.Sprintf("dvgaps%+v", dvGapsPlain(p)) }
+
+type dvGapsPlain DVGapsParams
+
+func (p DVGapsParams) Batch(sc *Scenario) Batch {
+	b := make(Batch, p.N)
+	for _, f := range p.Fields {
+		seen := map[int]bool{}
+		for _, r := range f.Ranges {
+			for i := r[0]; i < r[1]; i += f.Step {
+				if seen[i] {
+					continue
+				}
+				seen[i] = true
+				fd := Field{Name: f.Name, DV: true, Len: 2, Terms: []Term{{T: "common", Freq: 1}, {T: fmt.Sprintf("%s%d", f.Name, i%11), Freq: 1}}}
+				if i%3 == 0 {
+					fd.Terms, fd.Len = fd.Terms[1:], 1
+				}
+				b[i].Fields = append(b[i].Fields, fd)
+			}
+		}
+	}
+	return b
+}
+
+// SparseParams describes thousands of (mostly empty) documents for the tiny
+// fixed chunk sizes: posting lists whose chunk tables have thousands of
+// entries (numDocs / chunkSize well beyond 4096 or 65536), few of them used.
+type SparseParams struct {
+	N    int
+	Hits []int // documents carrying term "hit" (field "a"), ascending
+	Locs bool
+	IDs  bool // every 512th document has an _id term
+}
+
+var SparseModes = []uint32{1, 1, 2, 3, 5, 16}
+
+func GenSparse(t *rapid.T) SparseParams {
+	p := SparseParams{N: rapid.SampledFrom([]int{4096, 4097, 4100, 8193, 9000, 12289, 20481, 66000}).Draw(t, "sparseN")}
+	seen := map[int]bool{}
+	add := func(d int) {
+		if d >= 0 && d < p.N && !seen[d] {
+			seen[d] = true
+			p.Hits = append(p.Hits, d)
+		}
+	}
+	add(rapid.IntRange(0, 3).Draw(t, "firstHit"))
+	nh := rapid.IntRange(2, 9).Draw(t, "nHits")
+	for i := 0; i < nh; i++ {
+		switch rapid.IntRange(0, 2).Draw(t, "hitKind") {
+		case 0:
+			add(rapid.IntRange(0, p.N-1).Draw(t, "hitAny"))
+		case 1:
+			add(p.N - 1 - rapid.IntRange(0, 5).Draw(t, "hitFromEnd"))
+		default:
+			add(rapid.SampledFrom([]int{4095, 4096, 4097, 8191, 8192, 8193, 65535, 65536}).Draw(t, "hitBoundary") + rapid.IntRange(-1, 1).Draw(t, "hitJitter"))
+		}
+	}
+	sort.Ints(p.Hits)
+	p.Locs = rapid.Bool().Draw(t, "sparseLocs")
+	p.IDs = rapid.Bool().Draw(t, "sparseIDs")
+	return p
+}
+
+func (p SparseParams) String() string { return fmt.Sprintf("sparse%+v", sparsePlain(p)) }
+
+type sparsePlain SparseParams
+
+func (p SparseParams) Batch(sc *Scenario) Batch {
+	b := make(Batch, p.N)
+	for k, d := range p.Hits {
+		tm := Term{T: "hit", Freq: 1 + k%3}
+		if p.Locs {
+			tm.Locs = []Loc{{Pos: d, Start: k, End: k + 3}}
+		}
+		f := Field{Name: "a", Len: tm.Freq, DV: sc.Schema["a"] == dvAlways, Terms: []Term{tm}}
+		if k%2 == 1 {
+			f.Terms = append(f.Terms, Term{T: fmt.Sprintf("u%d", k), Freq: 1})
+			f.Len++
+		}
+		if k%4 == 0 {
+			f.Store, f.Value = true, fmt.Sprintf("stored-%d", d)
+		}
+		b[d].Fields = append(b[d].Fields, f)
+	}
+	if p.IDs {
+		for d := 0; d < p.N; d += 512 {
+			b[d].Fields = append(b[d].Fields, Field{Name: "_id", Len: 1, Terms: []Term{{T: fmt.Sprintf("id%06d", d), Freq: 1}}})
 		}
 	}
 	return b
@@ -534,7 +782,7 @@ func genPostingBatch(t *rapid.T, sc *Scenario) Batch {
 		f := Field{Name: "a", DV: sc.Schema["a"] == dvAlways}
 		if kind >= 2 {
 			tm := Term{T: "t"}
-			nl := rapid.SampledFrom([]int{0, 0, 1, 2}).Draw(t, "nLocs")
+			nl := rapid.SampledFrom([]int{0, 0, 1, 1, 2, 4}).Draw(t, "nLocs")
 			for l := 0; l < nl; l++ {
 				lf := ""
 				if withB && rapid.Bool().Draw(t, "locB") {
@@ -542,7 +790,7 @@ func genPostingBatch(t *rapid.T, sc *Scenario) Batch {
 				}
 				tm.Locs = append(tm.Locs, Loc{Field: lf, Pos: rapid.SampledFrom(posVals).Draw(t, "pos"), Start: i, End: i + l})
 			}
-			tm.Freq = nl + rapid.SampledFrom([]int{0, 1, 1, 3}).Draw(t, "xf")
+			tm.Freq = nl + rapid.SampledFrom([]int{0, 0, 1, 1, 3}).Draw(t, "xf")
 			if tm.Freq == 0 {
 				tm.Freq = 1
 			}
